@@ -623,6 +623,39 @@ class Run:
             rec.log = keep_log
         rec.emit("note", what="incomplete-construct", expected="rejected" if missing else "built", got=got, missing=sorted(missing)[:5])
 
+    def op_become_clone(self, step):
+        """The machine under test is replaced by its deepcopy / pickle round trip and the history goes on
+        with the clone (own model and listener objects): a clone is a machine like any other."""
+        import copy
+        import pickle
+
+        rec, sm = self.rec, self.sm
+        if sm is None:
+            return
+        how = step.get("how", "deepcopy")
+        try:
+            clone = copy.deepcopy(sm) if how == "deepcopy" else pickle.loads(pickle.dumps(sm))
+        except Exception as err:  # noqa: BLE001
+            rec.emit("note", what="clone-failed", how=how, exc=f"{type(err).__name__}: {err}"[:200])
+            return
+        objs = {"model": clone.model}
+        for lst in list(getattr(clone, "_listeners", {})):
+            nm = type(lst).__name__.split("_")[0].lower()
+            if nm.startswith("l") and nm[1:].isdigit():
+                objs[nm] = lst
+        self.sm = clone
+        self.objs = dict(self.objs, **objs)
+        if getattr(self, "user_model", None) is not None:
+            self.user_model = clone.model
+        self.bound_target = None
+        ids = {p: id(o) for p, o in self.objs.items() if o is not None}
+        ids["sm"] = id(clone)
+        ids["model"] = id(clone.model)
+        rec.emit("step", op="rebind", phase="end", ids=ids, how=how)
+        self._probe()
+        return
+        yield  # pragma: no cover
+
     def _clone(self, step):
         """deepcopy / pickle round trip of the main machine; the clone becomes the 'other' instance with
         its own recorded history (checked against the reference from the copy point)."""
